@@ -3,8 +3,10 @@ import json, os, re
 from vlib import core
 
 THEOREMS = ['consts_match', 'rd_wire', 'aligned', 'starts_get', 'starts_length', 'delivered_once', 'entitled_exactly_once',
-            'specRun_unhandled', 'panic_survives', 'chunking_irrelevant']
-MODULES = ['LLRP.Model.ReadSide', 'LLRP.Model.ReadStages', 'LLRP.Proofs.ReadSide', 'LLRP.Oracle.C04']
+            'specRun_unhandled', 'panic_survives', 'chunking_irrelevant',
+            # ReadSide.dispatch proved equal to the go2seq translation of Client.passToHandler
+            'src_dispatch']
+MODULES = ['LLRP.Model.GoSeq', 'LLRP.Proofs.SeqDispatchEq', 'LLRP.Model.ReadSide', 'LLRP.Model.ReadStages', 'LLRP.Proofs.ReadSide', 'LLRP.Oracle.C04']
 RULE = ('scripted sessions against the real Client (1.0.1, after the greeting): random sessions of 2-30 frames (types with a registered '
         'handler, with only the default handler, with none; payload 0..70000; ids of outstanding callers, of answered or cancelled '
         'callers, of nobody; callers registered and cancelled between batches); payloads of limit-1, limit, limit+1, limit+2, 2*limit+3 '
